@@ -148,6 +148,7 @@ def run(ctx):
     ctx.props("C16")
     n_seq = 250 if ctx.tier == "quick" else 8000
     cases = cc.gen_sequences(ctx, impl, n_seq, 6, oor_fraction=0.7, per_class_boundary=False)
+    cases += cc.published_boundary_cases(impl)
     # plus: every class x every leaf that can be out of range, just outside on both sides
     for fname in cc.FLAVS:
         for row in impl.t["flavours"][fname]["rows"]:
